@@ -17,6 +17,7 @@ class State:
         self.packets = []  # (label, strategies repr, inferral)
         self.spec_checks = []  # (n_packets_so_far, answer)
         self.on_packet = None  # optional callback(searcher, state)
+        self.pending = None  # last packet the queue handed to the search loop: [packet, consumed]
 
 
 def reset():
@@ -38,7 +39,35 @@ def attach(searcher, schedule=None, on_packet=None):
     return st
 
 
+_LOOPING = []  # searchers currently inside _expand_classes_for (innermost last)
+
+
+def _settle(searcher, st):
+    """No loss between the queue and the expansion: a work packet the queue handed to the
+    search loop is either expanded or skipped because its class is verified (and verified
+    classes are not being expanded) - judged before anything else can change the
+    verification status, i.e. at the next hand-out or when the loop is left, also by an
+    exception (time limit)."""
+    if st.pending is None:
+        return
+    packet, consumed = st.pending
+    st.pending = None
+    cx = base.ctx()
+    cx.count("search.handouts_accounted")
+    if consumed:
+        return
+    label = packet[0]
+    if (not searcher.expand_verified) and searcher.ruledb.is_verified(label):
+        cx.count("search.handouts_skipped_verified")
+        return
+    cx.violation("C17:work-packet-lost",
+                 f"the queue handed out {packet} to the search loop, which neither expanded it nor could skip it "
+                 f"(label {label} is not verified); the queue will never hand it out again",
+                 {"packet": [packet[0], list(packet[1]), packet[2]]})
+
+
 def install():
+    import comb_spec_searcher.class_queue as qmod
     import comb_spec_searcher.comb_spec_searcher as mod
 
     if _INSTALLED:
@@ -46,10 +75,39 @@ def install():
     cls = mod.CombinatorialSpecificationSearcher
     orig_expand = cls._expand
     orig_has = cls.has_specification
+    orig_loop = cls._expand_classes_for
+    orig_next = qmod.DefaultQueue.__next__
+
+    def _expand_classes_for(self, *a, **k):
+        st = state_of(self)
+        st.pending = None
+        _LOOPING.append(self)
+        try:
+            return orig_loop(self, *a, **k)
+        finally:
+            _LOOPING.pop()
+            _settle(self, st)
+
+    def __next__(queue):
+        s = _LOOPING[-1] if _LOOPING else None
+        if s is not None and s.classqueue is queue:
+            st = state_of(s)
+            _settle(s, st)
+            wp = orig_next(queue)
+            st.pending = [(wp.label, tuple(map(repr, wp.strategies)), bool(wp.inferral)), False]
+            return wp
+        return orig_next(queue)
+
+    cls._expand_classes_for = _expand_classes_for
+    qmod.DefaultQueue.__next__ = __next__
+    _INSTALLED["loop"] = orig_loop
+    _INSTALLED["next"] = orig_next
 
     def _expand(self, comb_class, label, strategies, inferral):
         st = state_of(self)
         st.packets.append((label, tuple(map(repr, strategies)), bool(inferral)))
+        if st.pending is not None and st.pending[0] == st.packets[-1]:
+            st.pending[1] = True
         base.ctx().count("search.packets")
         try:
             return orig_expand(self, comb_class, label, strategies, inferral)
